@@ -495,6 +495,127 @@ pub fn special_programs() -> Vec<(&'static str, Prog, &'static str, bool)> {
         "object() 7 3 null|4 1 true true true\n",
         true,
     ));
+    // one string constant in every role at once: label, function name, global variable, field, method
+    v.push((
+        "one-name-constant-in-every-role",
+        Prog {
+            consts: vec![
+                s("x"),                       // 0
+                Const::Slot(0),               // 1 global x / field x
+                Const::Int(5),                // 2
+                Const::Int(7),                // 3
+                Const::Method { name: 0, arity: 1, locals: 0, code: vec![Ins::GetLocal(0), Ins::Return] }, // 4 function x(a)
+                Const::Method { name: 0, arity: 2, locals: 0, code: vec![Ins::GetLocal(1), Ins::Return] }, // 5 method x(this, a)
+                Const::Class(vec![1, 5]),     // 6 object with field x and method x
+                Const::Null,                  // 7
+                s("~ ~ ~ ~\n"),               // 8
+                s("main"),                    // 9
+                Const::Int(9),                // 10
+                Const::Method {
+                    name: 9,
+                    arity: 0,
+                    locals: 1,
+                    code: vec![
+                        Ins::Lit(2),
+                        Ins::SetGlobal(0),
+                        Ins::Drop,
+                        Ins::Goto(0),
+                        Ins::Lit(10),
+                        Ins::SetGlobal(0),
+                        Ins::Drop,
+                        Ins::Label(0),
+                        Ins::Lit(7),
+                        Ins::Lit(3),
+                        Ins::Object(6),
+                        Ins::SetLocal(0),
+                        Ins::Drop,
+                        Ins::GetGlobal(0),
+                        Ins::Lit(10),
+                        Ins::Call(0, 1),
+                        Ins::GetLocal(0),
+                        Ins::GetSlot(0),
+                        Ins::GetLocal(0),
+                        Ins::Lit(2),
+                        Ins::CallSlot(0, 2),
+                        Ins::Print(8, 4),
+                    ],
+                },
+            ],
+            globals: vec![1, 4],
+            entry: 11,
+        },
+        "5 9 7 5\n",
+        true,
+    ));
+    // the entry method is an ordinary function too: it can call itself
+    v.push((
+        "entry-calls-itself",
+        Prog {
+            consts: vec![
+                s("main"),
+                s("g"),
+                Const::Slot(1),
+                Const::Int(1),
+                s("P"),
+                s("done"),
+                Const::Method {
+                    name: 0,
+                    arity: 0,
+                    locals: 0,
+                    code: vec![Ins::GetGlobal(1), Ins::Branch(5), Ins::Lit(3), Ins::SetGlobal(1), Ins::Drop, Ins::Call(0, 0), Ins::Drop, Ins::Label(5), Ins::Print(4, 0), Ins::Return],
+                },
+            ],
+            globals: vec![2, 6],
+            entry: 6,
+        },
+        "PP",
+        true,
+    ));
+    // a method whose first instruction is a label that a later jump targets; the loop counts down in a local
+    v.push((
+        "method-starts-with-its-loop-label",
+        Prog {
+            consts: vec![
+                s("main"),
+                s("count"),
+                s("top"),
+                s("-"),
+                Const::Int(1),
+                Const::Int(3),
+                s("<~>"),
+                s("=="),
+                Const::Int(0),
+                s("out"),
+                Const::Method {
+                    name: 1,
+                    arity: 1,
+                    locals: 0,
+                    code: vec![
+                        Ins::Label(2),
+                        Ins::GetLocal(0),
+                        Ins::Print(6, 1),
+                        Ins::Drop,
+                        Ins::GetLocal(0),
+                        Ins::Lit(4),
+                        Ins::CallSlot(3, 2),
+                        Ins::SetLocal(0),
+                        Ins::Lit(8),
+                        Ins::CallSlot(7, 2),
+                        Ins::Branch(9),
+                        Ins::Goto(2),
+                        Ins::Label(9),
+                        Ins::GetLocal(0),
+                        Ins::Return,
+                    ],
+                },
+                Const::Method { name: 0, arity: 0, locals: 0, code: vec![Ins::Lit(5), Ins::Call(1, 1), Ins::Print(6, 1)] },
+            ],
+            globals: vec![10],
+            entry: 11,
+        },
+        "<3><2><1><0>",
+        true,
+    ));
     // return pops the frame and nothing else: a callee may leave several values (or none of its own) for its caller
     v.push((
         "return-leaves-the-operand-stack-alone",
@@ -780,7 +901,14 @@ pub fn c05(ctx: &Ctx, rep: &mut Report) {
                 if let Some((eo, ek)) = &expect {
                     let f = dir.join(format!("p{}.bc", i));
                     if std::fs::write(&f, bcfmt::write(&prog)).is_ok() {
-                        let r = if i % 2 == 0 { cli::run(cli::Spec::new(&["execute", f.to_str().unwrap()])) } else { cli::run(cli::Spec::new(&["execute"]).stdin(&bcfmt::write(&prog))) };
+                        // by file, on stdin, and by a path that is not a regular file (/dev/stdin behind a pipe, a named pipe, /proc/self/fd/0)
+                        let way = (i / cli_every) % 5;
+                        let r = match way {
+                            0 => cli::run(cli::Spec::new(&["execute", f.to_str().unwrap()])),
+                            1 => cli::run(cli::Spec::new(&["execute"]).stdin(&bcfmt::write(&prog))),
+                            w => cli::run_input_not_a_file((w - 2) as usize, &["execute"], &bcfmt::write(&prog), &[], &dir, "c05").unwrap_or_else(|| cli::run(cli::Spec::new(&["execute", f.to_str().unwrap()]))),
+                        };
+                        rep.bump("c05-cli-input", ["file", "stdin", "/dev/stdin behind a pipe", "named pipe", "/proc/self/fd/0"][way as usize]);
                         rep.evaluations += 1;
                         if r.timed_out || r.spawn_error.is_some() {
                             rep.skip("cli-watchdog");
